@@ -24,13 +24,14 @@ type c26Fault struct {
 }
 
 type c26Run struct {
-	Subs        int        `json:"subs"`
-	ItemsPerSub int        `json:"items_per_sub"`
-	IntervalMs  int        `json:"interval_ms"`
-	ReconnectMs int        `json:"reconnect_ms"`
-	RequestMs   int        `json:"request_timeout_ms"`
-	Faults      []c26Fault `json:"faults"`
-	Restore     bool       `json:"restore_nodes"`
+	Subs            int        `json:"subs"`
+	ItemsPerSub     int        `json:"items_per_sub"`
+	MixedTimestamps bool       `json:"mixed_timestamps_to_return"`
+	IntervalMs      int        `json:"interval_ms"`
+	ReconnectMs     int        `json:"reconnect_ms"`
+	RequestMs       int        `json:"request_timeout_ms"`
+	Faults          []c26Fault `json:"faults"`
+	Restore         bool       `json:"restore_nodes"`
 
 	s            *sim.Sim
 	e            *env
@@ -63,6 +64,7 @@ func (r *c26Run) Setup(s *sim.Sim) {
 	s.DrawPolicy()
 	r.Subs = 1 + p.Intn(3)
 	r.ItemsPerSub = 1 + p.Intn(3)
+	r.MixedTimestamps = p.Bool()
 	r.IntervalMs = sim.Pick(p, 50, 100, 250)
 	r.ReconnectMs = sim.Pick(p, 100, 500, 2000)
 	r.RequestMs = sim.Pick(p, 1000, 3000)
@@ -256,7 +258,17 @@ func (r *c26Run) Main(s *sim.Sim) {
 			n := si*r.ItemsPerSub + k
 			items = append(items, opcua.NewMonitoredItemCreateRequestWithDefaults(r.e.nodeID(fmt.Sprintf("n%d", n)), ua.AttributeIDValue, uint32(n)))
 		}
-		if _, err := sub.Monitor(ctx, ua.TimestampsToReturnBoth, items...); err != nil {
+		// the items of one subscription are added in one call, or one by one with
+		// different TimestampsToReturn settings (the client keeps them in separate groups)
+		if r.MixedTimestamps {
+			for k, it := range items {
+				ts := []ua.TimestampsToReturn{ua.TimestampsToReturnBoth, ua.TimestampsToReturnSource, ua.TimestampsToReturnServer, ua.TimestampsToReturnNeither}[(si+k)%4]
+				if _, err := sub.Monitor(ctx, ts, it); err != nil {
+					s.Fail("HARNESS", "setup", "monitor", "%v", err)
+					return
+				}
+			}
+		} else if _, err := sub.Monitor(ctx, ua.TimestampsToReturnBoth, items...); err != nil {
 			s.Fail("HARNESS", "setup", "monitor", "%v", err)
 			return
 		}
